@@ -1,5 +1,6 @@
 import I18n.Lemmas.DateTags
 import I18n.Lemmas.DateRe
+import I18n.Lemmas.DateSort
 /-
 Property C18 — date fields are normalised canonically and judged by the real calendar.
 
@@ -301,6 +302,17 @@ theorem no_date_field (c : Ctx) (f : Field) :
     checkField c f [] = some (if f = .pot ∧ c.isBinary = true then [] else [⟨"no-date-header-field", [.str f.name]⟩]) := by
   unfold checkField
   by_cases h : f = .pot ∧ c.isBinary = true <;> simp [h]
+
+/-- **check_dates_shape**: the whole output is, for POT-Creation-Date then PO-Revision-Date: `duplicate-header-field-date`
+    followed by the verdicts on `sorted(set(values))` if there are several values, the missing-field verdict if there is
+    none, else the verdicts on the one value — each verdict being the one `date_tags_iff` characterises -/
+theorem check_dates_shape (c : Ctx) : checkDates c = some (fieldTags c .pot c.pot ++ fieldTags c .po c.po) :=
+  checkDates_eq c
+
+/-- `sorted(set(values))`: the same values, strictly increasing in code-point order (hence each once) -/
+theorem sorted_set_spec (l : List (List Char)) :
+    (∀ y, y ∈ sortedSet l ↔ y ∈ l) ∧ (sortedSet l).Pairwise (fun a b => strLt a b = true) :=
+  ⟨fun y => mem_sortedSet y l, sortedSet_sorted l⟩
 
 /-- **NoCrash**: `check_dates` lets no exception escape (the second `parse_date` cannot fail, the hint it passes is
     well-formed, the length assertion holds) -/
